@@ -172,6 +172,7 @@ func (e *Engine) VerifyFunction(fn *ssa.Function) (rep *FuncReport) {
 			r.assumed["global invariant (proved on the package initialiser): "+g.Key] = true
 		}
 	}
+	r.frameRefines(fn, ct, name)
 	// vacuity canary: the preconditions must be satisfiable
 	vac := r.oblige(name, "vacuity", "true", "false", "preconditions and typing facts are satisfiable (must be sat)", fn.Pos())
 	_ = vac
@@ -520,4 +521,60 @@ func (r *run) assumingGuard(env *specEnv, ct *Contract) string {
 		gs = append(gs, r.specBool(env, a.Expr, a.Text))
 	}
 	return and(gs...)
+}
+
+// frameRefines: a method under contract that implements an interface method with an
+// interface contract (assumed at every dynamic call) must not claim a larger frame than the
+// interface contract allows; positions are matched by parameter index (DESIGN §8 C03).
+func (r *run) frameRefines(fn *ssa.Function, ct *Contract, name string) {
+	if ct == nil || fn.Signature.Recv() == nil {
+		return
+	}
+	recvT := fn.Signature.Recv().Type()
+	for key, ic := range r.eng.Contracts {
+		if !strings.HasPrefix(key, "iface:") || !strings.HasSuffix(key, "."+fn.Name()) {
+			continue
+		}
+		k := strings.TrimSuffix(strings.TrimPrefix(key, "iface:"), "."+fn.Name())
+		it := r.eng.LookupType(k)
+		if it == nil {
+			continue
+		}
+		iface, ok := it.Underlying().(*types.Interface)
+		if !ok || !types.Implements(recvT, iface) {
+			continue
+		}
+		ic.Used = true
+		allowed := map[string]bool{}
+		all := false
+		for _, a := range ic.Assigns {
+			if a == "*" {
+				all = true
+			}
+			parts := strings.Split(a, ".")
+			if len(parts) == 2 {
+				for i, pn := range ic.ParamNames {
+					if pn == parts[0] {
+						allowed[fmt.Sprintf("%d.%s", i, parts[1])] = true
+					}
+				}
+			}
+		}
+		for _, a := range ct.Assigns {
+			ok := all
+			parts := strings.Split(a, ".")
+			if len(parts) == 2 && !strings.HasPrefix(a, "map:") {
+				for i, pn := range ct.ParamNames {
+					if pn == parts[0] && allowed[fmt.Sprintf("%d.%s", i, parts[1])] {
+						ok = true
+					}
+				}
+			}
+			cond := "false"
+			if ok {
+				cond = "true"
+			}
+			r.oblige(name, "frame.refines", "true", cond, fmt.Sprintf("assigns %s is within the frame of the interface contract %s (assigns %s)", a, strings.TrimPrefix(key, "iface:"), strings.Join(ic.Assigns, ", ")), fn.Pos())
+		}
+	}
 }
